@@ -668,8 +668,21 @@ func operandView(d map[string]map[string]any) map[string]map[string]any {
 		b, _ := json.Marshal(o)
 		blobs[k] = string(b)
 	}
+	// a disabled Prometheus instance inside its documented retention period is kept on purpose until it expires, and
+	// with it what the operand deploys next to it (its ServiceAccount and the ServiceMonitors it scrapes through)
+	deprecated := false
+	for k, o := range d {
+		if strings.HasPrefix(k, "Prometheus/") {
+			if ann, _ := o["metadata"].(map[string]any)["annotations"].(map[string]any); ann != nil && ann["kai/deprecation-timestamp"] != nil {
+				deprecated = true
+			}
+		}
+	}
 	for k, o := range d {
 		md := o["metadata"].(map[string]any)
+		if deprecated && (strings.HasPrefix(k, "ServiceMonitor/") || (strings.HasPrefix(k, "ServiceAccount/") && md["name"] == "prometheus")) {
+			continue
+		}
 		if refs, _ := md["ownerReferences"].([]any); len(refs) == 0 && strings.HasPrefix(k, "Secret/") {
 			used := false
 			ref := fmt.Sprintf("<tls.crt of secret %v/%v>", md["namespace"], md["name"])
